@@ -12,7 +12,8 @@
 //     "schnorr-k256", "schnorr-k256-neg" (response k − e·x), "schnorr-p256",
 //     "schnorr-k256-le" (little-endian challenge); cfg.Hash is the challenge hash of the
 //     vanilla flavours ("sha256" | "sha512" | "sha3-256").
-//   - Key material: trusted dealer of drive/keys (stream vh.NewRng(Seed, Prop, "deal", 0)) for
+//   - Key material: drive/keys.Material (trusted dealer on stream vh.NewRng(Seed, Prop, "deal", 0),
+//     or the real Gennaro DKG with cfg.KeySource = "gennaro") for
 //     cfg.Policy over the variant's group, converted with lindell22/keygen.NewShard.
 //   - Per-party recording tapes as in every driver ("new" during NewCosigner, "r1".."r3").
 //     The first read of a party with tag r1 is its nonce k_i (RandomNonIdentity).
@@ -92,7 +93,7 @@ type Result struct {
 	Sig      *Sig
 	SigBy    map[sharing.ID]*Sig
 	SetupErr string
-	BaseMul  func(k *big.Int) []byte // Bytes() of k·G in the variant's group
+	BaseMul  func(k *big.Int) []byte          // Bytes() of k·G in the variant's group
 	BaseXY   func(k *big.Int) (x, y *big.Int) // affine coordinates of k·G (nil, nil for the identity)
 }
 
